@@ -488,6 +488,8 @@ func runC13(r *Run, replay *Case) {
 					r.Add(c13PipeCase(p, replay.Input["pos"].(string)))
 				}
 			}
+		case "alternation", "alternation-loop":
+			c13TypeAlternation(r)
 		case "conv":
 			d := map[string]any{}
 			for _, a := range c13Args {
@@ -534,6 +536,7 @@ func runC13(r *Run, replay *Case) {
 		}
 	}
 	c13ConvCases(r)
+	c13TypeAlternation(r)
 	// built-in-only pipe chains: real engine vs the Lean pipe interpreter (parsePipeExpr / evalPipe / callBuiltin), byte for byte
 	heads := []string{"s", "t", "e", "n", "lst", "obj.k", "st.Y", "missing", "'lit'", "upper(s)", "len(lst)", "digits"}
 	segs := []string{"upper", "lower", "trim", "len", "string", "escape", "default('d')", "default(t)", "default(missing)", "nosuch", "upper(1)", "default", "upper()"}
